@@ -641,12 +641,14 @@ def _means_nonempty(test, attr):
 
 def minishard_drain(repo, col):
     rule = "E-ORDER.drain"
+    from .core import minishard_buffer_attr
+    bufattr = minishard_buffer_attr(repo)
     fn = repo.func("sharded_file_accessor", "MiniShard.close")
     cfg = fn.cfg()
     drains = []
     for n in cfg.nodes:
         if n.kind == "loop" and isinstance(n.ast, ast.While):
-            if _means_nonempty(n.ast.test, "_chunk_buffer"):
+            if _means_nonempty(n.ast.test, "self." + bufattr):
                 drains.append(n)
     ok = bool(drains) and cfg.every_path_passes(cfg.entry, cfg.exit, drains)
     col.add(rule, fn, "while len(self._chunk_buffer) > 0", ok,
@@ -675,10 +677,10 @@ def minishard_drain(repo, col):
     fb = repo.func("sharded_file_accessor", "MiniShard.flush_buffer")
     loops = [s for s in stmts_of(fb.node) if isinstance(s, ast.While)]
     okl = bool(loops) and (norm(loops[0].test) in (
-        "self.next_cmc in self._chunk_buffer",) or (
+        "self.next_cmc in self." + bufattr,) or (
         isinstance(loops[0].test, ast.Compare) and
         isinstance(loops[0].test.ops[0], ast.In) and
-        norm(loops[0].test.comparators[0]) == "self._chunk_buffer" and
+        norm(loops[0].test.comparators[0]) == "self." + bufattr and
         isinstance(loops[0].test.left, ast.Name) and all(
             norm(d.value) == "self.next_cmc"
             for d in local_defs(fb.node).get(loops[0].test.left.id, [])
@@ -712,7 +714,7 @@ def minishard_drain(repo, col):
     st = repo.func("sharded_file_accessor", "MiniShard.store_cmc_chunk", inline=True)
     parked = [n for n in walk_local(st.node) if isinstance(n, ast.Assign)
               and isinstance(n.targets[0], ast.Subscript)
-              and "_chunk_buffer" in norm(n.targets[0].value)]
+              and norm(n.targets[0].value) == "self." + bufattr]
     params = [p for p in st.params if p != "self"]
     okk = bool(parked) and norm(parked[0].targets[0].slice) == params[-1]
     col.add(rule, st, "self._chunk_buffer[cmc] = chunk", okk,
